@@ -73,7 +73,11 @@ func loadTheory(dir string) (*Theory, error) {
 func sorts(s string) []Sort {
 	var out []Sort
 	for _, b := range splitSexprs(s) {
-		out = append(out, Sort(strings.Join(strings.Fields(b), " ")))
+		so := Sort(strings.Join(strings.Fields(b), " "))
+		if so == "Rune" {
+			so = SBV32 // (define-sort Rune () (_ BitVec 32))
+		}
+		out = append(out, so)
 	}
 	return out
 }
